@@ -1,190 +1,12 @@
-// C16 harness: runs op lines on the real alpaqa::util::TypeErased with instrumented payload
-// types and a stateful allocator over *tracking arenas*; prints, per op, the event log followed
-// by the outcome.  An allocator instance is (id, arena): instances 2c and 2c+1 share arena c and
-// compare equal, all others are unequal.  Every arena counts the blocks it handed out and the
-// blocks handed back *to it*; every block remembers the instance and arena it came from.  The
-// end-of-sequence line carries the per-arena ledger `ar=c:allocs/frees,…`.
-//   events: A a b n (allocator a allocated block b of n bytes)   D a b (deallocated by a)
-//           C id v (value ctor)  K id src (copy ctor)  M id src (move ctor)  X id (dtor)
-//           T (a payload constructor threw)  R id v (read hit object id)  W id v (write)
-//   harness-detected heap misuse is printed as BAD:<what> tokens (never by the model).
-#include <alpaqa/util/type-erasure.hpp>
+// C16 harness, main loop + wrapper kind 0 (see c16_common.hpp for the protocol):
+// alpaqa::util::TypeErased<VT, A, 32> with a bespoke vtable — payload sizes 16 / 32 / 48 lie on both
+// sides of (and exactly on) the small-buffer threshold.
+#include "c16_common.hpp"
 
-#include <iostream>
-#include <map>
-#include <memory>
-#include <optional>
-#include <sstream>
-#include <string>
-#include <utility>
-#include <vector>
+namespace c16 {
 
-namespace {
-
-std::vector<std::string> g_ev;
-long g_next_id = 0;
-bool g_throw_copy = false;
-std::pair<long, long> g_last{-1, -1};
-std::vector<int> g_dtor_count; // per payload id
-struct BlockInfo {
-    long b;
-    int alloc;
-    size_t n;
-    bool live;
-    int freed_by;
-};
-std::map<void *, long> g_live_blocks; // address -> block number (live only)
-std::vector<BlockInfo> g_blocks;
-struct Arena {
-    long allocs = 0; // blocks handed out by this arena
-    long frees  = 0; // blocks handed back to this arena
-};
-std::map<int, Arena> g_arenas; // arena number -> ledger
-
-void ev(const std::string &s) { g_ev.push_back(s); }
-std::string S(long x) { return std::to_string(x); }
-
-struct CopyThrow {};
-struct CtorThrow {};
-
-long new_id() {
-    g_dtor_count.push_back(0);
-    return g_next_id++;
-}
-
-template <size_t N>
-struct Payload {
-    long id;
-    long val;
-    char pad[N - 2 * sizeof(long)];
-    Payload(long v, bool thr) {
-        if (thr) {
-            ev("T");
-            throw CtorThrow{};
-        }
-        id  = new_id();
-        val = v;
-        ev("C " + S(id) + " " + S(v));
-    }
-    Payload(const Payload &o) {
-        if (g_throw_copy) {
-            g_throw_copy = false;
-            ev("T");
-            throw CopyThrow{};
-        }
-        id  = new_id();
-        val = o.val;
-        ev("K " + S(id) + " " + S(o.id));
-    }
-    Payload(Payload &&o) noexcept {
-        id    = new_id();
-        val   = o.val;
-        o.val = 0;
-        ev("M " + S(id) + " " + S(o.id));
-    }
-    Payload &operator=(const Payload &) = delete;
-    ~Payload() {
-        ev("X " + S(id));
-        if (id >= 0 && id < (long)g_dtor_count.size())
-            ++g_dtor_count[id];
-        else
-            ev("BAD:destroy-of-garbage");
-    }
-    std::pair<long, long> get() const { return {id, val}; }
-    void set(long v) {
-        val    = v;
-        g_last = {id, v};
-    }
-};
-template <>
-struct Payload<16> {
-    long id;
-    long val;
-    Payload(long v, bool thr) {
-        if (thr) {
-            ev("T");
-            throw CtorThrow{};
-        }
-        id  = new_id();
-        val = v;
-        ev("C " + S(id) + " " + S(v));
-    }
-    Payload(const Payload &o) {
-        if (g_throw_copy) {
-            g_throw_copy = false;
-            ev("T");
-            throw CopyThrow{};
-        }
-        id  = new_id();
-        val = o.val;
-        ev("K " + S(id) + " " + S(o.id));
-    }
-    Payload(Payload &&o) noexcept {
-        id    = new_id();
-        val   = o.val;
-        o.val = 0;
-        ev("M " + S(id) + " " + S(o.id));
-    }
-    Payload &operator=(const Payload &) = delete;
-    ~Payload() {
-        ev("X " + S(id));
-        if (id >= 0 && id < (long)g_dtor_count.size())
-            ++g_dtor_count[id];
-        else
-            ev("BAD:destroy-of-garbage");
-    }
-    std::pair<long, long> get() const { return {id, val}; }
-    void set(long v) {
-        val    = v;
-        g_last = {id, v};
-    }
-};
-using PS = Payload<16>;
-using PE = Payload<32>;
-using PL = Payload<48>;
-constexpr size_t SBS = 32;
-static_assert(sizeof(PS) == 16 && sizeof(PE) == SBS && sizeof(PL) == 48);
-
-template <bool POCCA, bool POCMA, bool SOCC>
-struct Alloc {
-    using value_type                             = std::byte;
-    using propagate_on_container_copy_assignment = std::bool_constant<POCCA>;
-    using propagate_on_container_move_assignment = std::bool_constant<POCMA>;
-    using propagate_on_container_swap            = std::false_type;
-    using is_always_equal                        = std::false_type;
-    int id                                       = 0;
-    int arena() const { return id / 2; }
-    Alloc()                                      = default;
-    explicit Alloc(int id) : id{id} {}
-    std::byte *allocate(size_t n) {
-        void *p = ::operator new(n);
-        long b  = (long)g_blocks.size();
-        ++g_arenas[arena()].allocs;
-        g_blocks.push_back({b, id, n, true, -1});
-        g_live_blocks[p] = b;
-        ev("A " + S(id) + " " + S(b) + " " + S((long)n));
-        return static_cast<std::byte *>(p);
-    }
-    void deallocate(std::byte *p, size_t n) {
-        auto it = g_live_blocks.find(p);
-        if (it == g_live_blocks.end()) {
-            ev("BAD:deallocate-of-non-live-pointer-by-" + S(id));
-            return;
-        }
-        auto &B = g_blocks[it->second];
-        ++g_arenas[arena()].frees; // the arena *this instance* works on gets the block
-        ev("D " + S(id) + " " + S(B.b));
-        if (n != B.n)
-            ev("BAD:deallocate-size");
-        B.live     = false;
-        B.freed_by = id;
-        g_live_blocks.erase(it);
-        ::operator delete(p);
-    }
-    Alloc select_on_container_copy_construction() const { return SOCC ? Alloc{0} : *this; }
-    friend bool operator==(const Alloc &a, const Alloc &b) { return a.arena() == b.arena(); }
-    friend bool operator!=(const Alloc &a, const Alloc &b) { return !(a == b); }
-};
+template <class D, size_t N>
+struct NoMixin {};
 
 struct VT : alpaqa::util::BasicVTable {
     std::pair<long, long> (*get)(const void *) = nullptr;
@@ -198,8 +20,8 @@ struct VT : alpaqa::util::BasicVTable {
 };
 
 template <class A>
-struct W : alpaqa::util::TypeErased<VT, A, SBS> {
-    using TE = alpaqa::util::TypeErased<VT, A, SBS>;
+struct W : alpaqa::util::TypeErased<VT, A, 32> {
+    using TE = alpaqa::util::TypeErased<VT, A, 32>;
     using TE::TE;
     using TE::call;
     using TE::vtable;
@@ -207,195 +29,29 @@ struct W : alpaqa::util::TypeErased<VT, A, SBS> {
     void set(long v) { call(vtable.set, v); }
 };
 
-struct ISession {
-    virtual ~ISession()                                        = default;
-    virtual std::string exec(std::vector<std::string> &t)      = 0;
-    virtual void finish()                                      = 0;
-};
-
-constexpr int NPOOL = 3;
-
 template <class A>
-struct Session : ISession {
-    std::optional<PS> env0;
-    std::optional<PL> env1;
-    std::optional<W<A>> pool[NPOOL];
-
-    Session() {
-        g_next_id = 0;
-        g_dtor_count.clear();
-        g_blocks.clear();
-        g_live_blocks.clear();
-        g_arenas.clear();
-        env0.emplace(100, false);
-        env1.emplace(101, false);
-        g_ev.clear();
-    }
-    void finish() override {
-        for (int i = NPOOL - 1; i >= 0; --i)
-            pool[i].reset();
-        env1.reset();
-        env0.reset();
-    }
-    static long nat(const std::string &s) { return std::stol(s); }
-    bool free_slot(long i) const { return i >= 0 && i < NPOOL && !pool[i]; }
-    bool has(long i) const { return i >= 0 && i < NPOOL && pool[i]; }
-
+struct Kind0 {
+    using Wr = W<A>;
+    template <class D, size_t N>
+    using Mixin                 = NoMixin<D, N>;
+    static constexpr size_t sbs = 32;
+    static std::pair<long, long> get(const Wr &w) { return w.get(); }
     template <class F>
-    static std::string by_type(const std::string &T, F &&f) {
-        if (T == "S")
-            return f(std::type_identity<PS>{});
-        if (T == "E")
-            return f(std::type_identity<PE>{});
-        if (T == "L")
-            return f(std::type_identity<PL>{});
-        return "bad-op";
-    }
-    static std::string val(std::pair<long, long> r) { return "val " + S(r.first) + " " + S(r.second); }
-
-    std::string exec(std::vector<std::string> &t) override {
-        const std::string &op = t[0];
-        using std::allocator_arg;
-        if (op == "def") {
-            long i = nat(t[1]);
-            if (!free_slot(i))
-                return "bad-op";
-            pool[i].emplace(allocator_arg, A{(int)nat(t[2])});
-            return "ok";
-        }
-        if (op == "ip") {
-            long i = nat(t[1]), v = nat(t[4]);
-            bool thr = t[5] == "1";
-            A a{(int)nat(t[2])};
-            if (!free_slot(i))
-                return "bad-op";
-            return by_type(t[3], [&](auto tag) -> std::string {
-                using T = typename decltype(tag)::type;
-                pool[i].emplace(allocator_arg, a, std::in_place_type<T>, v, thr);
-                return "ok";
-            });
-        }
-        if (op == "cp" || op == "mv" || op == "ptr") {
-            long i = nat(t[1]), k = nat(t[3]);
-            A a{(int)nat(t[2])};
-            if (!free_slot(i) || (k != 0 && k != 1))
-                return "bad-op";
-            if (op == "cp") {
-                g_throw_copy = t[4] == "1";
-                if (k == 0)
-                    pool[i].emplace(allocator_arg, a, std::as_const(*env0));
-                else
-                    pool[i].emplace(allocator_arg, a, std::as_const(*env1));
-            } else if (op == "mv") {
-                if (k == 0)
-                    pool[i].emplace(allocator_arg, a, std::move(*env0));
-                else
-                    pool[i].emplace(allocator_arg, a, std::move(*env1));
-            } else {
-                bool c = t[4] == "1";
-                if (k == 0 && !c)
-                    pool[i].emplace(allocator_arg, a, &*env0);
-                else if (k == 0)
-                    pool[i].emplace(allocator_arg, a, static_cast<const PS *>(&*env0));
-                else if (!c)
-                    pool[i].emplace(allocator_arg, a, &*env1);
-                else
-                    pool[i].emplace(allocator_arg, a, static_cast<const PL *>(&*env1));
-            }
-            return "ok";
-        }
-        if (op == "cc" || op == "cca" || op == "mc" || op == "mca") {
-            long i = nat(t[1]), j = nat(t[2]);
-            if (!free_slot(i) || !has(j))
-                return "bad-op";
-            if (op == "cc") {
-                g_throw_copy = t[3] == "1";
-                pool[i].emplace(std::as_const(*pool[j]));
-            } else if (op == "cca") {
-                g_throw_copy = t[4] == "1";
-                pool[i].emplace(std::as_const(*pool[j]), A{(int)nat(t[3])});
-            } else if (op == "mc") {
-                pool[i].emplace(std::move(*pool[j]));
-            } else {
-                pool[i].emplace(std::move(*pool[j]), A{(int)nat(t[3])});
-            }
-            return "ok";
-        }
-        if (op == "ca" || op == "ma") {
-            long i = nat(t[1]), j = nat(t[2]);
-            if (!has(i) || !has(j))
-                return "bad-op";
-            if (op == "ca") {
-                g_throw_copy = t[3] == "1";
-                *pool[i]     = std::as_const(*pool[j]);
-            } else {
-                *pool[i] = std::move(*pool[j]);
-            }
-            return "ok";
-        }
-        long i = nat(t[1]);
-        if (!has(i))
-            return "bad-op";
-        if (op == "del") {
-            pool[i].reset();
-            return "ok";
-        }
-        if (!*pool[i])
-            return "empty";
-        if (op == "get") {
-            auto r = std::as_const(*pool[i]).get();
-            ev("R " + S(r.first) + " " + S(r.second));
-            return val(r);
-        }
-        if (op == "set") {
-            pool[i]->set(nat(t[2]));
-            auto r = g_last;
-            ev("W " + S(r.first) + " " + S(r.second));
-            return val(r);
-        }
-        if (op == "as" || op == "asc") {
-            return by_type(t[2], [&](auto tag) -> std::string {
-                using T = typename decltype(tag)::type;
-                std::pair<long, long> r;
-                if (op == "as")
-                    r = pool[i]->template as<T>().get();
-                else
-                    r = std::as_const(*pool[i]).template as<const T>().get();
-                ev("R " + S(r.first) + " " + S(r.second));
-                return val(r);
-            });
-        }
-        if (op == "gp") {
-            void *p  = pool[i]->get_pointer();
-            auto &ty = pool[i]->type();
-            std::pair<long, long> r;
-            if (ty == typeid(PS))
-                r = static_cast<PS *>(p)->get();
-            else if (ty == typeid(PE))
-                r = static_cast<PE *>(p)->get();
-            else
-                r = static_cast<PL *>(p)->get();
-            ev("R " + S(r.first) + " " + S(r.second));
-            return val(r);
-        }
-        return "bad-op";
-    }
+    static void set(Wr &w, long v, F &&) { w.set(v); }
 };
 
-std::unique_ptr<ISession> make_session(int c) {
-    switch (c & 7) {
-        case 0: return std::make_unique<Session<Alloc<false, false, false>>>();
-        case 1: return std::make_unique<Session<Alloc<true, false, false>>>();
-        case 2: return std::make_unique<Session<Alloc<false, true, false>>>();
-        case 3: return std::make_unique<Session<Alloc<true, true, false>>>();
-        case 4: return std::make_unique<Session<Alloc<false, false, true>>>();
-        case 5: return std::make_unique<Session<Alloc<true, false, true>>>();
-        case 6: return std::make_unique<Session<Alloc<false, true, true>>>();
-        default: return std::make_unique<Session<Alloc<true, true, true>>>();
+std::unique_ptr<ISession> make_session_k0(int c) { return make_session_for<Kind0>(c); }
+
+static std::unique_ptr<ISession> make_session(int c, int k) {
+    switch (k) {
+        case 1: return make_session_k1(c);
+        case 2: return make_session_k2(c);
+        case 3: return make_session_k3(c);
+        default: return make_session_k0(c);
     }
 }
 
-void print_line(const std::string &tail) {
+static void print_line(const std::string &tail) {
     std::string out;
     for (auto &e : g_ev) {
         out += e;
@@ -405,11 +61,12 @@ void print_line(const std::string &tail) {
     std::cout << out << '\n';
 }
 
-} // namespace
+} // namespace c16
 
 int main() {
+    using namespace c16;
     std::ios::sync_with_stdio(false);
-    auto sess = make_session(0);
+    auto sess = make_session(0, 0);
     std::string line;
     while (std::getline(std::cin, line)) {
         std::vector<std::string> t;
@@ -438,7 +95,7 @@ int main() {
             print_line("end bad=" + S(bad) + " blk=" + S(blk) + " ids=" + S(g_next_id) +
                        " nblk=" + S((long)g_blocks.size()) + " ar=" + (ar.empty() ? "-" : ar));
             sess.reset();
-            sess = make_session(t.size() > 1 ? std::stoi(t[1]) : 0);
+            sess = make_session(t.size() > 1 ? std::stoi(t[1]) : 0, t.size() > 2 ? std::stoi(t[2]) : 0);
             continue;
         }
         std::string res;
